@@ -38,7 +38,10 @@ def setup(ctx):
 def classify(v):
     if v["kind"] == "constructor-accepts-undecidable":
         c = v["case"]
-        if c.get("run") is not None and c["run"] == c["k"] and (c.get("motif_len") is None or c["motif_len"] <= c["k"]):
+        # the listed finding is exactly: run limit == window, and nothing else wrong (motifs, as the built filter holds
+        # them, all fit the window).  A bare string is held symbol by symbol by the unmodified filter.
+        motif_ok = c.get("motif_len") is None or c["motif_len"] <= c["k"] or (c.get("bare") and "motif too long" not in v["detail"])
+        if c.get("run") is not None and c["run"] == c["k"] and motif_ok:
             return "ctor-accepts-run-equal-window"
     return None
 
@@ -51,6 +54,8 @@ def generate(ctx):
             for ml in [None] + list(range(1, k + 3)):
                 if ctx.mine(i):
                     yield "ctor", dict(k=k, run=run, motif_len=ml)
+                    if ml is not None:
+                        yield "ctor", dict(k=k, run=run, motif_len=ml, bare=True)
                 i += 1
     ctx.exhausted[EXHAUSTIVE[0]] = True
     for _ in range(ctx.pick(25, 250)):   # G2: one filter object, tightened between two runs of the pipeline
@@ -91,14 +96,29 @@ def check_ctor(ctx, case):
     dsw = import_dsw()
     k, run, ml = case["k"], case["run"], case["motif_len"]
     motifs = None if ml is None else ["ACGTACGTACGT"[:ml]]
+    if case.get("bare") and motifs:
+        motifs = motifs[0]             # a single motif handed over as a plain string
     out = monitored(dsw.LocalBioFilter, 10000, observed_length=k, max_homopolymer_runs=run, undesired_motifs=motifs)
     decidable = (run is None or run < k) and (ml is None or ml <= k)
+    if out.kind == "ok" and case.get("bare"):
+        # judged from the filter that was built: the motifs it holds (a string is iterated symbol by symbol by the
+        # unmodified filter, which is window-decidable) and its run limit
+        held = out.value.undesired_motifs
+        held = [] if held is None else list(held)
+        r2 = out.value.max_homopolymer_runs
+        decidable = (r2 is None or r2 < k) and all(len(m) <= k for m in held)
+        ctx.cls("ctor|bare-string motif")
     if out.kind == "ok":
         ctx.cls("ctor|accepted")
         if not decidable:
+            why = []
+            if out.value.max_homopolymer_runs is not None and out.value.max_homopolymer_runs >= k:
+                why.append("run limit >= window")
+            if any(len(m) > k for m in (out.value.undesired_motifs or [])):
+                why.append("motif too long")
             ctx.fail("constructor-accepts-undecidable",
-                     "LocalBioFilter(observed_length=%d, max_homopolymer_runs=%s, motif length %s) was accepted but is not "
-                     "window-decidable" % (k, run, ml))
+                     "LocalBioFilter(observed_length=%d, max_homopolymer_runs=%s, motif length %s%s) was accepted but is not "
+                     "window-decidable (%s)" % (k, run, ml, " as a bare string" if case.get("bare") else "", ", ".join(why)))
     elif out.kind == "raised" and isinstance(out.exc, ValueError):
         ctx.cls("ctor|rejected")
     else:
